@@ -224,7 +224,7 @@ def run(ctx):
                 if kind == 'want' or got == want:
                     continue
                 ctx.violation({'check': 'C14', 'kind': 'stale_or_no_certificate', 'client': kind, 'via': 'real_wiring'},
-                              'real wiring (%s), phase %d (0 = start-up pair, 1 = after rename-over, 2 = after in-place rewrite): a client of kind %s is shown serial %s (-1 = handshake failed), current pair has serial %s' % (how, pi, kind, got, want), wout)
+                              'real wiring (%s), phase %d (0 = start-up pair, 1 = after rename-over, 2 = after in-place rewrite, 3 = after a rewrite to a pair that covers another name only): a client of kind %s is shown serial %s (-1 = handshake failed), current pair has serial %s' % (how, pi, kind, got, want), wout)
             wired.append(ph)
     samples = []
     for h in hist[:400:97]:
